@@ -153,6 +153,9 @@ pub fn run() {
 	cx.note("exhaustive", serde_json::json!(true));
 	cx.note("assumptions", serde_json::json!(["32-bit field values are exercised by position-unique patterns, all-ones and IEEE specials, not all 2^32 values", "the reference recorder's canonical order equals real recorders' (bound by re-deriving the repository's fixture replays)"]));
 	let mut cs = cs;
+	for a in crate::gen::universe(cx.quick()) {
+		cs.push(Case { abs: a, p: P { class: "universe", ..Default::default() } });
+	}
 	for a in crate::gen::long_replays(cx.quick()) {
 		cs.push(Case { abs: a.clone(), p: P { class: "long-game", ..Default::default() } });
 	}
